@@ -20,6 +20,19 @@ def load(p):
         return None
 
 
+def needs_from_notes(p, n=900):
+    """the section of notes.md that says what the change needs in order to manifest (heading or numbered item mentioning need/trigger/manifest)"""
+    import re
+    try:
+        txt = open(p).read()
+    except Exception:
+        return ""
+    m = re.search(r"(?im)^(#+\s*|\d+\.\s*\**)?[^\n]*(needs? |needed|trigger|manifest)[^\n]*\n", txt)
+    if not m:
+        return txt[:n]
+    return txt[m.start():m.start() + n].strip()
+
+
 def first_para(p, n=1200):
     try:
         return open(p).read()[:n]
@@ -49,18 +62,21 @@ for pid, k, sd, origin in entries:
         if os.path.exists(os.path.join(sd, f)):
             shutil.copy(os.path.join(sd, f), os.path.join(dst, f))
     sc = load(f"/tmp/seedcheck/{pid}_{k}.json") or {}
+    sc_head = load(f"/tmp/seedcheck/{pid}_{k}p.json") if os.path.exists(ported) else None
     key = f"{pid}/{k}"
     det = matrix.get(key, {})
     meta = dict(
         property=pid, seed=key, origin=origin,
         applies_to_repo_head=subprocess.run(["git", "-C", "/repo", "apply", "--check", os.path.join(dst, "patch.diff")], capture_output=True).returncode == 0,
         ported_by_hand=os.path.exists(ported),
-        what_it_needs_to_manifest=manual.get(key, {}).get("needs", "see notes.md (section 'What it needs')"),
+        what_it_needs_to_manifest=manual.get(key, {}).get("needs") or needs_from_notes(os.path.join(sd, "notes.md")),
         confirmed_by_me=dict(
             how="scratch worktree (never /repo): demo.py on the unchanged tree, git apply patch.diff, demo.py again, then the pinned test command "
                 "(pytest -n 8 --timeout=3600, junit) compared id by id with the 705 baseline passes",
             demo_exit_unchanged=sc.get("demo_unchanged_rc"), demo_exit_with_change=sc.get("demo_changed_rc"),
-            baseline_tests_still_passing=sc.get("suite_ok"), tests_passed=sc.get("suite_passed"), tree=sc.get("tree", "d14b75d")),
+            baseline_tests_still_passing=sc.get("suite_ok"), tests_passed=sc.get("suite_passed"), tree=sc.get("tree", "d14b75d"),
+            ported_patch_on_head=(dict(demo_exit_unchanged=sc_head.get("demo_unchanged_rc"), demo_exit_with_change=sc_head.get("demo_changed_rc"),
+                                       baseline_tests_still_passing=sc_head.get("suite_ok"), tests_passed=sc_head.get("suite_passed"), tree=sc_head.get("tree")) if sc_head else None)),
         detected_by={c: ("violation with replayed failing input" if r.get("confirmed") else ("violation, no-failing-input-found" if r.get("violations") else
                                                                                              ("undecided (exit 2)" if r.get("undecided") else "not detected")))
                      for c, r in det.items()},
